@@ -359,6 +359,7 @@ func (r *resource) QueryEvent(cb func(QueryRequest)) {
 	go qe.startQueryListener()
 
 	r.s.queryTQ.Add(qe)
+	vhook("qe.added", r.rname, qsubj)
 }
 
 // CreateEvent sends a create event for the resource, where data is
